@@ -147,6 +147,25 @@ func VerifC09Bytes() {
 	conn.Raw(line)
 	got := vDrain(conn)
 	vAssert(len(got) == 1 && got[0] == line, "raw-enqueues-the-line-unchanged")
+	if vLen("fault", 0, 1) == 1 {
+		// the peer is slow: the first socket write accepts 0..3 bytes and then times out. Whatever the
+		// client does next (give up, or carry on where it stopped), the peer never sees a byte twice:
+		// the transcript is a prefix of line+CRLF, and all of it if the write reported success.
+		w.partialOn, w.partialAt, w.partialN = true, 0, vLen("accepted", 0, 3)
+		conn.cfg.Timeout = 1
+		err := conn.write(line)
+		all := ""
+		for _, x := range w.written {
+			all += x
+		}
+		want := line + "\r\n"
+		vAssert(len(all) <= len(want) && all == want[:len(all)], "no-byte-written-twice-after-a-timeout")
+		if err == nil {
+			vAssert(all == want, "success-means-whole-line")
+		}
+		vReach("end")
+		return
+	}
 	err := conn.write(line)
 	vAssert(err == nil, "write-ok")
 	err = conn.write("NEXT")
